@@ -57,18 +57,19 @@ Qed.
 
 Section Frame.
   Variable kb : kbase.
+  Variable bf : nat.
   Variable pre : str.
 
   Definition frame_next (fuel : nat) : Prop :=
-    forall nd w, next kb fuel nd (wpre pre w) = rpre pre (next kb fuel nd w).
+    forall nd w, next kb bf fuel nd (wpre pre w) = rpre pre (next kb bf fuel nd w).
   Definition frame_and (fuel : nat) : Prop :=
     forall ss nobt more head tail optail acc w,
-      and_loop kb fuel ss nobt more head tail optail acc (wpre pre w) =
-      rpre pre (and_loop kb fuel ss nobt more head tail optail acc w).
+      and_loop kb bf fuel ss nobt more head tail optail acc (wpre pre w) =
+      rpre pre (and_loop kb bf fuel ss nobt more head tail optail acc w).
   Definition frame_call (fuel : nat) : Prop :=
     forall t ss nobt child idx n w,
-      call_loop kb fuel t ss nobt child idx n (wpre pre w) =
-      rpre pre (call_loop kb fuel t ss nobt child idx n w).
+      call_loop kb bf fuel t ss nobt child idx n (wpre pre w) =
+      rpre pre (call_loop kb bf fuel t ss nobt child idx n w).
 
   (* rewriting with the induction hypothesis and taking the result apart *)
   Ltac step IH e :=
@@ -83,49 +84,49 @@ Section Frame.
       destruct (node_nobt nd); [reflexivity|].
       destruct nd as [t ss nobt child idx n|k ss nobt more head tail optail|fn ts ss nobt more].
       + destruct child as [c0|]; [|apply IHc].
-        step IHn (next kb f c0 w). destruct o; [reflexivity|apply IHc].
+        step IHn (next kb bf f c0 w). destruct o; [reflexivity|apply IHc].
       + destruct k.
         * destruct tail as [t0|]; [|apply IHa].
-          step IHn (next kb f t0 w). destruct o; [reflexivity|apply IHa].
+          step IHn (next kb bf f t0 w). destruct o; [reflexivity|apply IHa].
         * destruct tail as [t0|].
-          -- step IHn (next kb f t0 w).
+          -- step IHn (next kb bf f t0 w).
           -- destruct head as [h|]; [|reflexivity].
-             step IHn (next kb f h w). destruct o; [reflexivity|].
+             step IHn (next kb bf f h w). destruct o; [reflexivity|].
              destruct optail as [tl|]; [|reflexivity].
              destruct (length tl =? 0)%nat; [reflexivity|].
              destruct (nobt || b); [reflexivity|].
              rewrite wpre_make_node. destruct (make_node kb (GOp OOr tl) ss w0) as [[t1 w2]| |]; cbn [npre bind]; try reflexivity.
-             step IHn (next kb f t1 w2).
+             step IHn (next kb bf f t1 w2).
         * destruct (negb more); [reflexivity|]. destruct head as [h|]; [|reflexivity].
-          step IHn (next kb f h w). now rewrite wpre_print.
+          step IHn (next kb bf f h w). now rewrite wpre_print.
         * destruct (negb more); [reflexivity|]. destruct head as [h|]; [|reflexivity].
-          step IHn (next kb f h w).
+          step IHn (next kb bf f h w).
       + destruct (negb more); [reflexivity|].
-        destruct (run_bip f fn ts ss) as [r| |]; cbn [bind rpre]; try reflexivity.
+        destruct (run_bip bf fn ts ss) as [r| |]; cbn [bind rpre]; try reflexivity.
         now rewrite wpre_print.
     - intros ss nobt more head tail optail acc w. rewrite !and_loop_S. unfold and_body.
       destruct head as [h|]; [|reflexivity].
-      step IHn (next kb f h w). destruct o; [|reflexivity].
+      step IHn (next kb bf f h w). destruct o; [|reflexivity].
       destruct optail as [tl|]; [|reflexivity].
       destruct (length tl =? 0)%nat; [reflexivity|].
       rewrite wpre_make_node. destruct (make_node kb (GOp OAnd tl) s w0) as [[t1 w2]| |]; cbn [npre bind]; try reflexivity.
-      step IHn (next kb f t1 w2). destruct o; [reflexivity|apply IHa].
+      step IHn (next kb bf f t1 w2). destruct o; [reflexivity|apply IHa].
     - intros t ss nobt child idx n w. rewrite !call_loop_S. unfold call_body.
       destruct nobt; [reflexivity|]. destruct (n <=? idx); [reflexivity|].
       rewrite wpre_next_id.
       destruct (term_key t) as [key| |]; cbn [bind rpre]; try reflexivity.
       destruct (get_rule kb key idx (next_id w)) as [[r0 ctr]| |]; cbn [bind rpre]; try reflexivity.
-      destruct (unify f (r_head r0) t ss) as [[s|]| |]; cbn [bind rpre]; try reflexivity.
+      destruct (unify bf (r_head r0) t ss) as [[s|]| |]; cbn [bind rpre]; try reflexivity.
       + destruct (is_gnil (r_body r0)); [reflexivity|].
         rewrite wpre_set_id, wpre_make_node.
         destruct (make_node kb (r_body r0) s (w_set_id w ctr)) as [[c0 w2]| |]; cbn [npre bind]; try reflexivity.
-        step IHn (next kb f c0 w2). destruct o; [reflexivity|apply IHc].
+        step IHn (next kb bf f c0 w2). destruct o; [reflexivity|apply IHc].
       + rewrite !wpre_set_id. apply IHc.
   Qed.
 End Frame.
 
-Theorem next_frame kb pre fuel nd w : next kb fuel nd (wpre pre w) = rpre pre (next kb fuel nd w).
-Proof. apply (proj1 (frame_all kb pre fuel)). Qed.
+Theorem next_frame kb bf pre fuel nd w : next kb bf fuel nd (wpre pre w) = rpre pre (next kb bf fuel nd w).
+Proof. apply (proj1 (frame_all kb bf pre fuel)). Qed.
 
 (* ---- the query constructor forgets the past ---- *)
 Theorem make_query_forgets terms w :
@@ -146,7 +147,7 @@ Inductive qobs := OAns (s : option subst) | OStr (s : str) | OStrs (l : list str
 Definition run_op (kb : kbase) (fuel : nat) (op : qop) (nd : node) (w : world)
   : res (qobs * node * world) :=
   match op with
-  | QAsk => do x <- next kb fuel nd w; let '(nd', r, _, w') := x in Ok (OAns r, nd', w')
+  | QAsk => do x <- next kb fuel fuel nd w; let '(nd', r, _, w') := x in Ok (OAns r, nd', w')
   | QSolve => do x <- solve fuel kb nd w; let '(nd', s, w') := x in Ok (OStr s, nd', w')
   | QSolveAll => do x <- solve_all fuel kb nd w; let '(nd', l, w') := x in Ok (OStrs l, nd', w')
   end.
@@ -181,7 +182,7 @@ Definition spre (pre : str) {A} (r : res (A * world)) : res (A * world) :=
 Lemma solve_frame kb pre fuel nd w : solve fuel kb nd (wpre pre w) = spre pre (solve fuel kb nd w).
 Proof.
   unfold solve. rewrite wpre_set_flag, next_frame.
-  destruct (next kb fuel nd (w_set_flag w false)) as [[[[n1 o1] b1] w1]| |]; cbn [rpre bind spre]; try reflexivity.
+  destruct (next kb fuel fuel nd (w_set_flag w false)) as [[[[n1 o1] b1] w1]| |]; cbn [rpre bind spre]; try reflexivity.
   rewrite wpre_query_stopped. destruct (query_stopped w1) as [st w2]. cbn [fst snd].
   destruct st; [reflexivity|]. destruct o1 as [s|]; [|reflexivity].
   destruct (node_goal_term n1) as [q|]; [|reflexivity].
@@ -194,7 +195,7 @@ Lemma solve_all_loop_frame kb pre : forall fuel nd q acc w,
 Proof.
   induction fuel as [|f IH]; intros nd q acc w; [reflexivity|].
   cbn [solve_all_loop]. rewrite next_frame.
-  destruct (next kb (S f) nd w) as [[[[n1 o1] b1] w1]| |]; cbn [rpre bind spre]; try reflexivity.
+  destruct (next kb (S f) (S f) nd w) as [[[[n1 o1] b1] w1]| |]; cbn [rpre bind spre]; try reflexivity.
   rewrite wpre_query_stopped. destruct (query_stopped w1) as [st w2]. cbn [fst snd].
   destruct st; [reflexivity|]. destruct o1 as [s|]; [|reflexivity].
   destruct (replace_variables (S f) q s) as [r| |]; cbn [bind]; try reflexivity.
@@ -213,7 +214,7 @@ Lemma run_op_frame kb pre fuel op nd w :
   run_op kb fuel op nd (wpre pre w) = spre pre (run_op kb fuel op nd w).
 Proof.
   destruct op; unfold run_op.
-  - rewrite next_frame. destruct (next kb fuel nd w) as [[[[n1 o1] b1] w1]| |]; reflexivity.
+  - rewrite next_frame. destruct (next kb fuel fuel nd w) as [[[[n1 o1] b1] w1]| |]; reflexivity.
   - rewrite solve_frame. destruct (solve fuel kb nd w) as [[[n1 s1] w1]| |]; reflexivity.
   - rewrite solve_all_frame. destruct (solve_all fuel kb nd w) as [[[n1 s1] w1]| |]; reflexivity.
 Qed.
